@@ -246,6 +246,10 @@ class PhasorDomainExpression(PhasorDomain, PhasorExpression):
     @classmethod
     def from_constant(cls, expr, omega=None, **assumptions):
 
+        if isinstance(expr, Expr):
+            # Keep the quantity (and so the units) of the constant
+            return expr.change(expr, domain='phasor', omega=omega,
+                               **assumptions)
         return cls(expr, omega=omega)
 
     def time(self, **assumptions):
